@@ -56,8 +56,8 @@ class Skein(object):
         O = []
         n = l = 0
         T = Tweak(Type='out')
-        ubi = UBI(Threefish,G,T)
         while l<lq:
+            ubi = UBI(Threefish,G,T)
             o = ubi(pack(Bits(n,64)))
             l += len(o)
             O.append(o)
